@@ -71,6 +71,11 @@ def replay(case, acc):
     check_variant(acc, (), case['text'], case.get('explicit'), case.get('origin', 'replay'))
 
 
+from harness.shrink import text_shrinker  # noqa: E402
+shrink = text_shrinker(replay, 'text')
+
+
+
 def nontrivial_info(info):
     ref = info.get('refobj')
     if ref is None:
